@@ -37,7 +37,7 @@ REFCACHE_CFG = {"quick": "RefCache_q.cfg", "thorough": "RefCache_t.cfg"}
 # reference-cache states replayed into the real cache: all up to this depth ...
 RC_ALL_DEPTH = {"quick": 3, "thorough": 4}
 # ... plus a seeded sample of the deeper ones
-RC_SAMPLE = {"quick": 2500, "thorough": 10 ** 9}      # thorough replays every state
+RC_SAMPLE = {"quick": 1500, "thorough": 10 ** 9}      # thorough replays every state
 # generous: a loaded machine must not turn into a machinery failure
 TIMEOUT = {"quick": 1200, "thorough": 3000}
 # traces per TLC validation JVM (memory: ~1 GB per 10 MB of traces)
@@ -151,6 +151,9 @@ def _replay_and_judge(cases: List[dict], wd: str, tag: str, jobs: int, tier: str
 
 
 def run(prop: str, tier: str, replay: str = None) -> int:
+    # ~25 JVMs run side by side here: the default of one GC thread per core in
+    # each of them only makes them fight for the cores
+    os.environ.setdefault("JAVA_TOOL_OPTIONS", "-XX:ParallelGCThreads=3")
     rep = Report(prop, tier)
     rng = random.Random(core.seed() * 1000003 + 20)
     wd = tlc.workdir(prop)
@@ -192,6 +195,8 @@ def run(prop: str, tier: str, replay: str = None) -> int:
                         excused += len(c.pop("kf", []))
                         (shallow if c["d"] <= RC_ALL_DEPTH[tier] else deep).append(c)
                 n_deep = len(deep)
+                # TLC's workers emit in no fixed order: sort before the seeded sample
+                deep.sort(key=lambda c: json.dumps([c["init"], c["wit"]]))
                 if len(deep) > RC_SAMPLE[tier]:
                     deep = rng.sample(deep, RC_SAMPLE[tier])
                 cases = shallow + deep
